@@ -329,6 +329,12 @@ func (sdbh *SemaDBHandlers) HandleInsertPoints(w http.ResponseWriter, r *http.Re
 			pointId = uuid.MustParse(point.Id)
 		}
 		pointData := models.PointAsMap{"vector": point.Vector, "metadata": point.Metadata}
+		// The collection may have been created through a later API version
+		// with further indices, e.g. on metadata fields.
+		if err := collection.IndexSchema.CheckCompatibleMap(pointData); err != nil {
+			utils.Encode(w, http.StatusBadRequest, map[string]string{"error": err.Error()})
+			return
+		}
 		binaryPointData, err := msgpack.Marshal(pointData)
 		if err != nil {
 			errMsg := fmt.Sprintf("failed to JSON encode point at index %d, please ensure all fields are JSON compatible", i)
@@ -430,6 +436,10 @@ func (sdbh *SemaDBHandlers) HandleUpdatePoints(w http.ResponseWriter, r *http.Re
 			Id: uuid.MustParse(point.Id),
 		}
 		pointData := models.PointAsMap{"vector": point.Vector, "metadata": point.Metadata}
+		if err := collection.IndexSchema.CheckCompatibleMap(pointData); err != nil {
+			utils.Encode(w, http.StatusBadRequest, map[string]string{"error": err.Error()})
+			return
+		}
 		binaryPointData, err := msgpack.Marshal(pointData)
 		if err != nil {
 			errMsg := fmt.Sprintf("failed to JSON encode %d, please ensure all fields are JSON compatible", i)
